@@ -190,7 +190,7 @@ def extract(tree):
     facts["acceptMarkOnly"] = cls["mark"]
     sa = _norm(_fbody(pp, "janet_sched_accept"))
     m1 = re.search(r"state->function\s*=\s*fun\s*;", sa)
-    m2 = re.search(r"if\s*\(\s*fun\s*\)\s*janet_stream_level_triggered\s*\(\s*stream\s*\)\s*;", sa)
+    m2 = re.search(r"if\s*\(\s*fun(?:\s*!=\s*(?:NULL|\(\(void\s*\*\)0\)|0))?\s*\)\s*(?:\{\s*)?janet_stream_level_triggered\s*\(\s*stream\s*\)\s*;(?:\s*\})?", sa)
     m3 = re.search(r"janet_async_start\s*\(\s*stream\s*,\s*JANET_ASYNC_LISTEN_READ\s*,\s*net_callback_accept\s*,\s*state\s*\)\s*;", sa)
     if not m1 or not m3:
         raise ExtractError("janet_sched_accept: state->function = fun / janet_async_start(stream, JANET_ASYNC_LISTEN_READ, net_callback_accept, state) not found")
